@@ -11,7 +11,7 @@
    PackDomainName(s, make([]byte, cap), 0, nil, false); [unpack_name msg off]
    models UnpackDomainName; [is_domain_name] models IsDomainName. *)
 From Dns Require Import Model.NameWire Spec.NameSpec
-  Proofs.NameWireProofs Proofs.NameRoundtripProofs.
+  Proofs.NameWireProofs Proofs.NameRoundtripProofs Gen.Consts.
 Open Scope N_scope.
 
 (* wire -> text: every valid wire name unpacks to its presentation form,
@@ -74,3 +74,11 @@ Proof. exact packed_name_unpacks. Qed.
 Theorem nonfqdn_refused :
   forall s cap compress st, s <> [] -> is_fqdn s = false -> pack_name s cap compress st = Err "fqdn".
 Proof. intros s cap compress st Hs Hf. unfold pack_name. destruct s; [congruence|]. now rewrite Hf. Qed.
+
+(* the limits of the model are the constants of the current source (Gen/Consts.v is
+   regenerated from msg.go on every run): a changed limit breaks this obligation *)
+Theorem name_limits_are_the_source_constants :
+  max_name_wire = Gen.Consts.c_maxDomainNameWireOctets /\
+  max_compression_offset = Gen.Consts.c_maxCompressionOffset /\
+  max_pointers = Gen.Consts.c_maxCompressionPointers.
+Proof. repeat split; reflexivity. Qed.
